@@ -217,6 +217,18 @@ class SOpt(Sym):
         return TOpt(self.inner)
 
 
+class SDict(Sym):
+    """symbolic dict K -> V as (domain, map); insertion order is carried by a separate key list when iterated"""
+    __slots__ = ("kty", "vty", "dom", "map", "keys")
+
+    def __init__(self, kty, vty, dom, map_, keys=None):
+        self.kty, self.vty, self.dom, self.map, self.keys = kty, vty, dom, map_, keys
+
+    @property
+    def ty(self):
+        return TDict(self.kty, self.vty)
+
+
 class FuncRef:
     """Reference to a callable: a repository function (by qualified name) or a bound method."""
 
@@ -266,6 +278,10 @@ def fresh(ty: Ty, base: str):
         return SOpt(ty.inner, z3.Bool(fresh_name(base + "_isnone")), fresh(ty.inner, base + "_val"))
     if isinstance(ty, TTuple):
         return tuple(fresh(t, f"{base}_{i}") for i, t in enumerate(ty.elems))
+    if isinstance(ty, TDict):
+        ks, vs = sort_of(ty.key), sort_of(ty.val)
+        return SDict(ty.key, ty.val, z3.Const(fresh_name(base + "_dom"), z3.ArraySort(ks, z3.BoolSort())),
+                     z3.Const(fresh_name(base + "_map"), z3.ArraySort(ks, vs)), fresh(TList(ty.key), base + "_keys"))
     if ty is TNone:
         return None
     raise Unsupported(f"fresh({ty})")
@@ -286,6 +302,14 @@ def type_constraints(v) -> list:
     elif isinstance(v, tuple):
         for x in v:
             out.extend(type_constraints(x))
+    elif isinstance(v, SDict) and v.keys is not None:
+        # the key list enumerates the domain without repetition (insertion order)
+        i, j = z3.Int(fresh_name("dk_i")), z3.Int(fresh_name("dk_j"))
+        x = z3.Const(fresh_name("dk_x"), sort_of(v.kty))
+        idx = z3.Function(fresh_name("dk_idx"), sort_of(v.kty), z3.IntSort())
+        out += [v.keys.n >= 0,
+                z3.ForAll([i], z3.Implies(z3.And(0 <= i, i < v.keys.n), z3.And(v.dom[v.keys.a[i]], idx(v.keys.a[i]) == i))),
+                z3.ForAll([x], z3.Implies(v.dom[x], z3.And(0 <= idx(x), idx(x) < v.keys.n, v.keys.a[idx(x)] == x)))]
     return out
 
 
@@ -302,7 +326,7 @@ def type_of(v) -> Ty:
         return TStr
     if v is None:
         return TNone
-    if isinstance(v, (SV, SList, SSet, SOpt)):
+    if isinstance(v, (SV, SList, SSet, SOpt, SDict)):
         return v.ty
     if isinstance(v, tuple):
         return TTuple(*[type_of(x) for x in v])
